@@ -768,6 +768,7 @@ def Op.c17 : Op → Bool
   | .gracefulClose _ => true
   | .abruptClose _ => true
   | .serverClose => true
+  | .acceptFault => false
 
 /-- a new connection joins the listen queue of a busy one-shot server -/
 theorem GOk.add_backlog {s : St} (h : GOk s) (k : Nat) (cred : Cred) (ids : List Nat) (hcr : cred ≠ .silent)
@@ -862,6 +863,7 @@ theorem GOk.step {s s' : St} {o : Obs} (h : GOk s) (op : Op) (hop : op.c17 = tru
   | creds k c => simp [Op.c17] at hop
   | connectReuse k j => simp [Op.c17] at hop
   | releaseHook k => simp [Op.c17] at hop
+  | acceptFault => simp [Op.c17] at hop
   | call k r =>
     unfold Srv.step at hs
     by_cases hu : usable s k = true
@@ -974,20 +976,44 @@ theorem GOk.run {s : St} (h : GOk s) (ops : List Op) (hops : ∀ op ∈ ops, op.
 @[simp] theorem dedRelease_cfg (s : St) (k : Nat) : (dedRelease s k).cfg = s.cfg := by
   unfold dedRelease; simp
 
+/-- an error from `accept()`: nothing happens (the code that logs and retries), or the server closes itself -/
+theorem step_acceptFault {s t : St} {o : Obs} (h : step s .acceptFault = .ok (t, o)) :
+    canAccept s = true ∧
+    ((s.cfg.acceptTough = true ∧ t = s ∧ o = .none) ∨
+     (s.cfg.acceptTough = false ∧ step s .serverClose = .ok (t, o))) := by
+  simp only [step] at h ⊢
+  split at h
+  · cases h
+  · rename_i hc
+    have hc' : canAccept s = true := by simpa using hc
+    refine ⟨hc', ?_⟩
+    split at h
+    · rename_i ht
+      simp only [Except.ok.injEq, Prod.mk.injEq] at h
+      exact Or.inl ⟨ht, h.1.symm, h.2.symm⟩
+    · rename_i ht
+      exact Or.inr ⟨by simpa using ht, h⟩
+
+theorem step_cfg_close {s s' : St} {o : Obs} (h : step s .serverClose = .ok (s', o)) : s'.cfg = s.cfg := by
+  simp only [step] at h
+  split at h
+  · cases hp : poolClose s with
+    | none => simp [hp] at h
+    | some t =>
+      simp [hp] at h; obtain ⟨rfl, _⟩ := h
+      unfold poolClose at hp
+      split at hp
+      · simp at hp
+      · simp at hp; subst hp; simp
+  · simp at h; obtain ⟨rfl, _⟩ := h; simp
+
 theorem step_cfg {s s' : St} {o : Obs} (op : Op) (h : step s op = .ok (s', o)) : s'.cfg = s.cfg := by
   cases op with
-  | serverClose =>
-    simp only [step] at h
-    split at h
-    · cases hp : poolClose s with
-      | none => simp [hp] at h
-      | some t =>
-        simp [hp] at h; obtain ⟨rfl, _⟩ := h
-        unfold poolClose at hp
-        split at hp
-        · simp at hp
-        · simp at hp; subst hp; simp
-    · simp at h; obtain ⟨rfl, _⟩ := h; simp
+  | serverClose => exact step_cfg_close h
+  | acceptFault =>
+    rcases (step_acceptFault h).2 with ⟨_, rfl, _⟩ | ⟨_, h'⟩
+    · rfl
+    · exact step_cfg_close h'
   | _ =>
     simp only [step] at h <;> (repeat' split at h) <;> simp_all <;> (try (obtain ⟨rfl, _⟩ := h; simp))
 
